@@ -127,7 +127,10 @@ class Tracker:
                 if all(j + 1 <= mstop * dl[c + j] for j in range(level - c)):
                     cmin = c
                     break
-            assert cmin is not None, ("driver lost feasibility", cfg, q)
+            if cmin is None:
+                # only reachable when the implementation did not do what the tracker inferred from the
+                # observed calls; keep driving, the trace spec names the failing clause
+                cmin = min(mstop, level)
             sname, tname = f"stop{k}", f"start{k}"
             if cmin > 0:
                 self.forced += 1
